@@ -257,6 +257,10 @@ def main():
         rc, out = sh([sys.executable, f"{ROOT}/tools/extract.py"], timeout=300)
         if rc != 0:
             report["proof_failures"].append({"kind": "Tie B translator failed", "output": out[-1500:]})
+        # what could not be translated any more became a stub: exactly the theorems that rest on it stop checking
+        notes = [l.strip() for l in out.splitlines() if "TIE B: not translated" in l]
+        if notes:
+            report["tie_b_not_translated"] = notes
     p_ok = proofs(pid, cfg, report)
     violations = []   # (text, replay dict)
     runs = []
@@ -338,7 +342,7 @@ def main():
                 body["no_longer_checks"].append({"proof_obligation": pf})
             if disagreements:
                 body["no_longer_checks"].append({"correspondence": f"Tie A {pid}: model vs implementation", "count": len(disagreements), "minimal_cases": sorted(disagreements, key=lambda d: len(d["case"]))[:8]})
-            for key in ("harness_build_error", "driver_error"):
+            for key in ("harness_build_error", "driver_error", "tie_b_not_translated"):
                 if key in report: body["no_longer_checks"].append({key: report[key]})
             path = write_replay("proof obligation or correspondence no longer checks", body)
             print(f"VIOLATION property={pid} replay={path} no-failing-input-found"); rc = 1
